@@ -19,7 +19,7 @@ type c02Kind struct {
 	Base string
 }
 
-var c02Kinds = []c02Kind{{decl.TString, ""}, {decl.TInt, ""}, {decl.TFloat64, ""}, {decl.TStrings, ""}, {decl.TMapSS, ""}, {decl.TFuncS, ""}, {decl.TInt, "16"}, {decl.TInts, ""}, {decl.TOnOff, ""}, {decl.TDuration, ""}}
+var c02Kinds = []c02Kind{{decl.TString, ""}, {decl.TInt, ""}, {decl.TFloat64, ""}, {decl.TStrings, ""}, {decl.TMapSS, ""}, {decl.TFuncS, ""}, {decl.TInt, "16"}, {decl.TInts, ""}, {decl.TOnOff, ""}, {decl.TDuration, ""}, {decl.TPInts, ""}}
 var c02Shorts = []string{"x", "é", "€"}
 var c02Alpha = []string{"v", "=", "-", ".", "5", "0", "\"", "\\", "é", ":", " ", "f", "I"}
 
@@ -44,6 +44,7 @@ func c02Get(kind int, short string, optional bool, pdd bool) *c02Decl {
 	top := &decl.Cmd{Name: "app", SubOptional: true, Opts: []*decl.Opt{
 		{Field: "Verbose", Short: "v", Long: "verbose", Type: decl.TBools},
 		{Field: "Other", Short: "o", Long: "other", Type: decl.TString},
+		{Field: "Four", Short: "4", Long: "four", Type: decl.TBool}, // a digit as short name: -42 is still a negative number after a numeric option
 		x,
 	}}
 	// a command that uses the same short letter for a flag (only reachable after its name)
@@ -100,7 +101,7 @@ func init() {
 	// all value strings up to length 3 (quick) / 4 (thorough)
 	valsQ := append([]string{""}, allStrings(c02Alpha, 1, 3)...)
 	valsT := append([]string{""}, allStrings(c02Alpha, 1, 4)...)
-	extra := []string{"-5", "-.5", "-ff", "--", "-x", "a=b", "k:v", "-5.5e1", "-v", "--name", "-é", "-0.5", "-007", "-0", "-9", "-1e3", "-00", "-9.99", "on", "off", "-5s", "-1h2m", "-1f", "5s", "-1.5s"}
+	extra := []string{"-5", "-.5", "-ff", "--", "-x", "a=b", "k:v", "-5.5e1", "-v", "--name", "-é", "-0.5", "-007", "-0", "-9", "-1e3", "-00", "-9.99", "on", "off", "-5s", "-1h2m", "-1f", "5s", "-1.5s", "-42", "-4", "-4.5", "-44"}
 
 	body := func(c *explore.Ctx) {
 		part := c.Choose(2)
@@ -220,8 +221,8 @@ func init() {
 		Level:      "exploration",
 		ShardDepth: 4,
 		Body:       body,
-		Rule: "option types {string, int, float64, []string, map[string]string, func(string), int base 16, []int, a bool-kinded Unmarshaler, time.Duration} x short name {x, é (2 bytes), € (3 bytes)} x optional-argument {no, yes} x PassDoubleDash {off, on} x context {alone, between two other options, before a plain word} x {fresh parser, parser that parsed [sync -x] before, where sync declares the same short letter as a flag} " +
-			"x value V in every string of length <= 3 (quick) / <= 4 (thorough) over {v = - . 5 0 \" \\ é : space f I} plus 25 hand-picked values (negative numbers in three notations, --, option-looking words); for each cell all admissible spellings among " +
+		Rule: "option types {string, int, float64, []string, map[string]string, func(string), int base 16, []int, []*int, a bool-kinded Unmarshaler, time.Duration} (a flag with the digit short name -4 is declared next to it) x short name {x, é (2 bytes), € (3 bytes)} x optional-argument {no, yes} x PassDoubleDash {off, on} x context {alone, between two other options, before a plain word} x {fresh parser, parser that parsed [sync -x] before, where sync declares the same short letter as a flag} " +
+			"x value V in every string of length <= 3 (quick) / <= 4 (thorough) over {v = - . 5 0 \" \\ é : space f I} plus 29 hand-picked values (negative numbers in three notations, --, option-looking words); for each cell all admissible spellings among " +
 			"{-xV, -x=V, -x V, --name=V, --name V} x {V, V as a double-quoted Go literal} are parsed and must give one identical outcome (all values, callback log, remaining arguments, error type); " +
 			"plus every flag cluster of <= 4 over {a (bool), b ([]bool), é (func())} and every cluster ending in an argument-taking option (x or é) against its separated form; distinct = distinct (type, short, outcome)",
 		Assumptions:  []string{"separate-token form demanded only where the statement allows it: not for optional-argument options, not when V has option syntax unless V is a clear numeral of the signed numeric option's own type and base, not for -- under PassDoubleDash", "-xV not demanded when V is empty or starts with '='"},
